@@ -876,7 +876,16 @@ func (s *vfSM) sweepEvict(e vfCB, now time.Time, vs *[]*vfViol, midSweep bool) {
 	if s.fitsAlways() {
 		also = "C07,C06"
 	}
+	attachedPassed := !e.exp.IsZero() && !e.exp.After(now)
 	switch {
+	case (ent.exp.IsZero() || ent.exp.After(now)) && attachedPassed && !e.exp.Equal(ent.exp):
+		// the expiration the cache had attached to the entry (reported with the eviction) has passed, so this sweep did
+		// what C14 asks of it; but it is not the instant "SetWithTTL time + ttl": the lifetime was not honoured
+		v := vfV("C07", "removed-by-expiry-before-its-instant/"+cls, "expiry processing removed value %d (key %d) at %v: the cache had attached the expiration %v, the write's ttl puts it at %v (zero: none)", e.tok, e.key, now.Format("15:04:05.000000000"), e.exp.Format("15:04:05.000000000"), ent.exp.Format("15:04:05.000000000"))
+		if s.fitsAlways() {
+			v.Also = "C06"
+		}
+		s.add(vs, v)
 	case ent.exp.IsZero():
 		v := vfV("C14", "sweep-removed-entry-without-ttl/"+cls, "expiry processing removed value %d (key %d) whose current write carries no TTL", e.tok, e.key)
 		v.Also = also
